@@ -369,7 +369,10 @@ func (r *resolverState) resolveType(ns types.Path, t ast.IsType) (IsType, error)
 	case ast.BoolType:
 		return BoolType{}, nil
 	case ast.ExtensionType:
-		return ExtensionType(t), nil
+		if ext, ok := lookupBuiltin(types.Path(t)).(ExtensionType); ok {
+			return ext, nil
+		}
+		return nil, fmt.Errorf("unknown extension type %q", t)
 	case ast.SetType:
 		elem, err := r.resolveType(ns, t.Element)
 		if err != nil {
